@@ -292,6 +292,8 @@ func (s *Storm) fire(r *rand.Rand, c trace.Call, fail, boom bool, holdUs int64, 
 	s.mu.Lock()
 	s.dones = append(s.dones, d)
 	s.mu.Unlock()
+	// request shape (method, arguments shape, injected keys, faults, pool size, did it run concurrently with others)
+	s.k.Distinct("req", c.Method, len(c.Names), c.N, c.M, len(c.DAG), c.B, keys, fail, boom, s.min, s.max, len(d.res), d.err == nil, s.gate.Inside() > 0)
 	return d
 }
 
